@@ -70,18 +70,7 @@ public:
         SongOpts o; o.maxTracks = (int)p.get("maxtracks", 3); o.maxEventsPerTrack = (int)p.get("maxev", 30); o.tempoChanges = p.get("tempo", 1) != 0;
         o.maxSeconds = 8.0; o.eotVariants = false;
         Song s = genSong(r, o);
-        if(p.get("devices", 0))
-        {
-            // every track names its own device at its start (names are pairwise distinct, so the meta events keep unique tags);
-            // some switch to a second one halfway
-            for(size_t tk = 0; tk < s.tracks.size(); ++tk)
-            {
-                STrack &t = s.tracks[tk]; if(t.ev.empty() || !r.chance(0.8)) continue;
-                SEvent e; e.status = 0xFF; e.metaType = 0x09; e.tick = 0; char nm[24]; snprintf(nm, sizeof nm, "dev%zu", tk); e.data.assign(nm, nm + strlen(nm)); e.id = 100000 + (int)tk * 2;
-                t.ev.insert(t.ev.begin(), e);
-                if(t.ev.size() > 6 && r.chance(0.4)) { size_t at = t.ev.size() / 2; SEvent f = e; f.tick = t.ev[at].tick; snprintf(nm, sizeof nm, "dev%zub", tk); f.data.assign(nm, nm + strlen(nm)); f.id = e.id + 1; t.ev.insert(t.ev.begin() + (long)at, f); }
-            }
-        }
+        if(p.get("devices", 0)) addDeviceMetas(s, r);
         // well-formed End-of-Track variants only: with company (delta 0) or alone at its own tick
         for(size_t tk = 0; tk < s.tracks.size(); ++tk)
         {
